@@ -266,8 +266,8 @@ fn structured_payloads() -> Vec<Vec<u8>> {
 pub fn c08() -> i32 {
     let mut rep = Report::new("C08", "model_checking");
     let t = rep.thorough();
-    rep.rule = "live injection grid: one forged packet - a re-serialised authentic Input of that link with exactly one aspect replaced (status count, start frame, payload from the enumerated byte strings / single-byte substitutions / truncations, wrong frame sizes), or any message kind under a foreign magic, or an unknown source address - at every round (handshake, running, after a timeout disconnect, after shutdown) and both positions relative to the authentic packets; differential oracle against the same run without the injection; plus the decoder sweep of C14 for the payload bytes in isolation; non-trivial = every injected run; distinct = distinct forged packets x rounds".to_owned();
-    rep.assumptions = vec!["a forged packet with the right magic and a well-formed, decodable, right-sized payload is indistinguishable from authentic traffic and is not in scope".into(), "random/mutational payloads beyond the enumerated ones are not attempted".into()];
+    rep.rule = "live injection grid: one forged packet - a re-serialised authentic Input of that link with one aspect replaced (status count, start frame, payload from the enumerated byte strings / single-byte substitutions / truncations / multi-run streams, wrong frame sizes) or two (an invalid payload or wrong-size frames together with an acknowledgement of everything, statuses reporting every player disconnected, or a disconnect request - so that acting on any part of a packet that is to be discarded shows), or any message kind under a foreign magic, or an unknown source address - at every round (handshake, running, after a timeout disconnect, after shutdown) and both positions relative to the authentic packets; differential oracle against the same run without the injection; plus the decoder sweep of C14 for the payload bytes in isolation; non-trivial = every injected run; distinct = distinct forged packets x rounds".to_owned();
+    rep.assumptions = vec!["a forged packet with the right magic and a well-formed, decodable, right-sized payload (including the valid encoding of an empty sequence of frames) is indistinguishable from authentic traffic and is not in scope".into(), "random/mutational payloads beyond the enumerated ones are not attempted".into()];
     let props = ["C08", "PANIC"];
     // every payload of <= 1 byte plus the structured family at every round; in the thorough tier
     // additionally every 2-byte payload at three protocol states (one round each of the
